@@ -24,7 +24,7 @@ package core
 //@   ghostensures ret != nil ==> d.depth == old(d.depth)
 //@   ensures TreeWF()
 //@   ensures ret == nil ==> core.currentContextDirective == d
-//@   ensures ret == nil ==> exists k :: k >= 0
+//@   ensures [C06,C07] ret == nil ==> exists k :: k >= 0
 //@        && (forall j :: 0 <= j && j < k ==> anc(j) != nil && !admits(anc(j), d) && !anc(j).HasExplicitContext)
 //@        && ( (anc(k) != nil && admits(anc(k), d)
 //@                && d.Parent == anc(k) && seqapp(anc(k).Children, old(anc(k).Children), d) && *root == old(*root)
